@@ -1,15 +1,27 @@
 #!/bin/bash
-# tools/try_seeded.sh <seeded-dir> [check ids...] : apply a seeded change to /repo, run the checks, undo it.
-# Prints "<dir> <check> exit=<n>"; /repo is restored even on interruption.
-d=$1; shift
+# tools/try_seeded.sh <seeded-dir> [check ids...]
+# Apply a seeded change to a scratch copy of /repo's working tree (outside /repo and /verif), run the
+# quick checks against it (VERIF_REPO), remove the copy.  Prints "<dir> <check> exit=<n> <VIOLATION lines>".
+# TRY_IN_REPO=1 applies it to /repo itself instead (git apply … ; checks ; git checkout -- .).
+d=$(realpath "$1"); shift
 cd "$(dirname "$0")/.." || exit 2
-[ -z "$(git -C /repo status --porcelain --untracked-files=no)" ] || { echo "/repo not clean"; exit 2; }
-trap 'git -C /repo checkout -- . ' EXIT
-git -C /repo apply "$d/patch.diff" || git -C /repo apply -3 "$d/patch.diff" || { echo "$d patch does not apply"; exit 2; }
 prop=$(python3 -c "import json;print(json.load(open('$d/meta.json'))['property'])")
 ids=${@:-$prop}
 mkdir -p replays/logs
+if [ -n "$TRY_IN_REPO" ]; then
+  [ -z "$(git -C /repo status --porcelain --untracked-files=no)" ] || { echo "/repo not clean"; exit 2; }
+  trap 'git -C /repo checkout -- .' EXIT
+  git -C /repo apply "$d/patch.diff" || { echo "$d patch does not apply"; exit 2; }
+  tree=/repo
+else
+  tree=/root/scratch/seedtry_$$
+  trap 'rm -rf $tree' EXIT
+  rsync -a --exclude .git /repo/ $tree/
+  (cd $tree && patch -p1 -s --no-backup-if-mismatch < "$d/patch.diff") || { echo "$d patch does not apply"; exit 2; }
+  export VERIF_REPO=$tree
+fi
 for id in $ids; do
-  ./check $id --tier quick > replays/logs/seeded-$(basename $d)-$id.log 2>&1
-  echo "$d $id exit=$? $(grep -E '^VIOLATION' replays/logs/seeded-$(basename $d)-$id.log | head -2 | tr '\n' ' ')"
+  log=replays/logs/seeded-$(basename $(dirname $d))-$(basename $d)-$id.log
+  ./check $id --tier quick > $log 2>&1
+  echo "$d $id exit=$? $(grep -E '^VIOLATION' $log | head -2 | tr '\n' ' ')"
 done
